@@ -4,11 +4,11 @@ JOBS = [
   Job("c08.wait", TU, "h_uncond_wait", replace=["verif_suspend_resume/suspend_resume_contract"], replace_calls=["myth_queue_pop:verif_pop"],
       fuc=["myth_uncond_wait_body", "myth_uncond_wait_cb"], timeout=200),
   Job("c08.init", TU, "h_uncond_init", fuc=["myth_uncond_init_body"], timeout=100),
-  Job("c08.signal.bounded", TU, "h_uncond_signal", kind="bounded", replace=["myth_queue_push/push_contract"],
+  Job("c08.signal.bounded", TU, "h_uncond_signal", kind="bounded", replace=["myth_queue_push/push_contract"], replace_calls=["myth_yield_body:verif_yield_sig"],
       read_hooks=[("th", "verif_rd_th")], cbmc=["--unwind", "6", "--unwinding-assertions"], defines=["-DSPIN_K=3"],
       fuc=["myth_uncond_signal_body"], timeout=200, tiers=("quick",),
       note="bounded: the waiter registers itself before the call or within 3 polls of the signaller's spin (the spin body is a plain re-read)"),
-  Job("c08.signal.k8.bounded", TU, "h_uncond_signal", kind="bounded", replace=["myth_queue_push/push_contract"],
+  Job("c08.signal.k8.bounded", TU, "h_uncond_signal", kind="bounded", replace=["myth_queue_push/push_contract"], replace_calls=["myth_yield_body:verif_yield_sig"],
       read_hooks=[("th", "verif_rd_th")], cbmc=["--unwind", "12", "--unwinding-assertions"], defines=["-DSPIN_K=8"],
       fuc=["myth_uncond_signal_body"], timeout=900, tiers=("thorough",),
       note="bounded: the waiter registers itself before the call or within 8 polls of the signaller's spin (the spin body is a plain re-read)"),
